@@ -277,6 +277,9 @@ pub fn run(_tier: Tier) -> Report {
                                 rep.guard("some cell is an error", true);
                             }
                             let ord = ((ci * 50 + i) * 96) as u64;
+                            if fails.is_empty() && (*s as usize * 7 + cl.map(|c| c.len()).unwrap_or(0) + te.map(|t| t.len()).unwrap_or(0)) % 997 == 0 {
+                                crate::engine::validate_case(&mut rep, replay, json!({"method": m, "status": s, "v11": v11, "cl": cl, "te": te}));
+                            }
                             for (key, what) in fails {
                                 rep.violation(Violation { key, ord, what, replay: json!({"method": m, "status": s, "v11": v11, "cl": cl, "te": te}) });
                             }
